@@ -60,9 +60,75 @@ def run_unit(name, canary=False, timeout=600):
     res["diffs"] = diffs
     res["unit_functions"] = [{"name": n, "file": f, "contract": c, "external_body": e} for n, f, c, e in functions]
     res["property"] = unit.get("property", [])
+    _verify_text(res, rs, text, linemap, out_dir, timeout)
+    _ablate_stale_hints(res, rs, text, linemap, out_dir, timeout)
+    return res
+
+
+def _ablate_stale_hints(res, rs, text, linemap, out_dir, timeout):
+    """A failed `assert` inside an EXEC function of the extract is a failed proof HINT (the repository's code has no Verus
+    asserts; debug_assert! reaches us through a macro expansion and is not touched).  A hint is not part of any contract:
+    if it no longer describes the code, it is dropped (`assert(true)`) and the function is verified again, so that what
+    gets reported is the verdict on the CONTRACT - a postcondition that still holds without the hint is not an alarm, one
+    that fails is reported as the failed obligation."""
+    modes = {f["function"].split("::")[-1]: f.get("mode", "") for f in res.get("functions", [])}
+    dropped = []
+    cur = text
+    for _round in range(10):
+        stale = [f for f in res.get("failures", []) if f["message"].strip() == "assertion failed" and f.get("span")
+                 and modes.get(f["function"], "exec") == "exec"]
+        if not stale:
+            break
+        # replace the asserted expression by `true` (a whole `assert forall .. implies .. by {..}` statement is removed),
+        # last span first so that earlier offsets stay valid
+        starts = [0]
+        for ln in cur.split("\n"):
+            starts.append(starts[-1] + len(ln) + 1)
+        for f in sorted(stale, key=lambda f: (f["span"][0], f["span"][1]), reverse=True):
+            l0, c0, l1, c1 = f["span"]
+            a, b = starts[l0 - 1] + c0 - 1, starts[l1 - 1] + c1 - 1
+            k = cur.rfind("assert", 0, a)
+            if k >= 0 and re.match(r"assert\s+forall\b", cur[k:a]):
+                m2 = re.match(r"\s*by\s*\{", cur[b:])
+                if m2:
+                    depth, e = 0, b + m2.end() - 1
+                    while e < len(cur):
+                        if cur[e] == "{":
+                            depth += 1
+                        elif cur[e] == "}":
+                            depth -= 1
+                            if depth == 0:
+                                break
+                        e += 1
+                    e += 1
+                else:
+                    e = b
+                if cur[e:e + 1] == ";":
+                    e += 1
+                cur = cur[:k] + re.sub(r"[^\n]", " ", cur[k:e]) + cur[e:]
+            else:
+                cur = cur[:a] + "true" + re.sub(r"[^\n]", " ", cur[a:b])[4:] + cur[b:] if b - a >= 4 else cur[:a] + "true" + cur[b:]
+            dropped.append({"function": f["function"], "hint": f["clause"][:160], "origin": f["origin"]})
+        res2 = {k: res[k] for k in ("unit", "canary", "file", "diffs", "unit_functions", "property", "cmd") if k in res}
+        res2.update({"status": "undecided", "functions": [], "failures": [], "reason": "", "wall_s": res.get("wall_s", 0), "smt_s": 0.0})
+        rs2 = rs[:-3] + "_nohint.rs"
+        _verify_text(res2, rs2, cur, linemap, out_dir, timeout)
+        for k in ("status", "functions", "failures", "undecided", "reason", "verified", "errors", "wall_s", "smt_s", "rendered"):
+            if k in res2:
+                res[k] = res2[k]
+        res["file"] = rs2
+    if dropped:
+        res["stale_hints_dropped"] = dropped
+        if res["status"] == "ok":
+            res["note"] = "%d proof hint(s) no longer described the code and were dropped; every contract verifies without them" % len(dropped)
+
+
+def _verify_text(res, rs, text, linemap, out_dir, timeout):
+    """run verus on one generated file and classify every error; fills res (status, failures, undecided, functions ..)"""
+    open(rs, "w").write(text)
     rc, so, se, wall = run(["verus", rs, "--output-json", "--time", "--multiple-errors", "50", "--",
                             "--error-format=json"], cwd=out_dir, timeout=timeout)
-    res["wall_s"] = round(wall, 2)
+    res["wall_s"] = round(res.get("wall_s", 0) + wall, 2)
     try:
         data = json.loads(so)
     except Exception:
@@ -110,6 +176,7 @@ def run_unit(name, canary=False, timeout=600):
     for e in errors:
         ours = [s for s in e["spans"] if os.path.basename(s.get("file_name", "")) == os.path.basename(rs)]
         sp_primary = [s for s in ours if s.get("is_primary")] or ours
+        direct_span = bool(sp_primary)
         # a span inside a macro expansion (debug_assert!) points into std: follow the expansion back to our file
         if not sp_primary:
             for s0 in e["spans"]:
@@ -135,7 +202,8 @@ def run_unit(name, canary=False, timeout=600):
                     break
         origin = _origin(linemap, line)
         ob = {"function": fn, "message": e["message"], "clause": clause[:200], "line": line,
-              "origin": origin, "rendered": e["rendered"][:3000]}
+              "origin": origin, "rendered": e["rendered"][:3000],
+              "span": ([sp_primary[0].get(k) for k in ("line_start", "column_start", "line_end", "column_end")] if sp_primary and direct_span else None)}
         if any(u in e["message"].lower() for u in undecided_msgs):
             undecided.append(ob)
         else:
@@ -150,6 +218,8 @@ def run_unit(name, canary=False, timeout=600):
     else:
         res["status"] = "ok"
     return res
+
+
 
 
 EXPANDED = os.path.join(BUILD, "expand", "expanded%s.rs" % _TAG)
